@@ -490,16 +490,20 @@ class Hooks:
             rec = {"surveyed": surveyed(p), "seen_all": seen_all(p), "p": p, "content": newdata._filehandle.getvalue(),
                    "kind": "publish"}
             hooks.publishes.append(rec)
-            d = orig_publish(p, newdata)
-            rec["seqnum"] = p._new_seqnum
+            try:
+                d = orig_publish(p, newdata)
+            finally:
+                rec["seqnum"] = getattr(p, "_new_seqnum", None)
             return d
 
         def update(p, data, offset, blockhashes, version):
             rec = {"surveyed": surveyed(p), "seen_all": seen_all(p), "p": p, "kind": "update", "offset": offset, "oldver": (version[0], version[1]),
                    "newdata": data._newdata._filehandle.getvalue()}
             hooks.publishes.append(rec)
-            d = orig_update(p, data, offset, blockhashes, version)
-            rec["seqnum"] = p._new_seqnum
+            try:
+                d = orig_update(p, data, offset, blockhashes, version)
+            finally:
+                rec["seqnum"] = getattr(p, "_new_seqnum", None)     # chosen before anything that may still fail
             return d
 
         def check(u, res):
@@ -701,6 +705,24 @@ def run_history(ctx, h, acc):
                                 else:
                                     ctx.count("grid-writer-did-not-observe-own-previous-version")
                             my_seqs.append(seq)
+                    elif kind == "overwrite-then-modify":
+                        snaps.append(mc.snapshot_files(g, si))
+                        npub = len(hooks.publishes)
+                        try:
+                            mv = rt.wait(node.get_best_mutable_version())
+                            rt.wait(mv.overwrite(MutableData(bytes.fromhex(step[1]))))
+                            set_down(step[3])
+                            rt.wait(mv.modify(lambda old, smap, first, _t=b"+" + bytes.fromhex(step[2]): old + _t))
+                            ctx.count("grid-overwrite-then-modify-ok")
+                        except grid.Stuck:
+                            raise
+                        except Exception as e:
+                            ctx.count("grid-overwrite-then-modify-error:" + mc.exc_name(e))
+                        set_down([])
+                        settle_publishes()
+                        new = [r for r in hooks.publishes[npub:] if r.get("seqnum") is not None]
+                        if new:
+                            my_seqs.append(max(r["seqnum"] for r in new))
                     elif kind in ("modify", "modify-split", "update-split"):
                         snaps.append(mc.snapshot_files(g, si))
                         token = b"+" + bytes.fromhex(step[1])
@@ -832,6 +854,10 @@ def run_history(ctx, h, acc):
                     vers = mc.versions_of(smap)
                     if len(set(v[:8] for v in vers)) < len(vers):
                         ctx.count("grid-map-one-version-two-verinfos")
+                        ctx.violation("a real ServerMap holds one version (same seqnum, root hash and signed prefix) under two "
+                                      "different verinfo tuples: %r" % sorted((v[0], [key for key, _o in v[8]]) for v in vers
+                                                                               if [w[:8] for w in vers].count(v[:8]) > 1)[:2],
+                                      case, "one-version-two-verinfos")
                     acc["sm_lines"].append("smap %s %s" % (mc.vtable(vers), " ".join(mc.smap_ops(smap, vers, hooks.sidx))))
                     acc["sm_impl"].append(mc.canon_smap(smap, vers, hooks.sidx))
                     acc["sm_cases"].append({"kind": "grid-smap", "h": h, "line": acc["sm_lines"][-1][:2000]})
@@ -855,8 +881,54 @@ def _corpus():
         ([v5, v5b], [("a", 0, 0, 0), ("a", 1, 1, 0), ("a", 2, 0, 1), ("a", 3, 1, 1)]),       # needs merge
         ([v3, v5], [("a", 0, 0, 0), ("a", 0, 0, 1), ("a", 1, 0, 1), ("b", 1, 0, "00"), ("a", 1, 0, 0)]),
         ([v3, v5, v5b], [("a", 0, 0, 2), ("a", 1, 1, 2), ("a", 2, 0, 1), ("a", 3, 1, 1), ("a", 4, 0, 0), ("a", 5, 5, 0), ("u", 6), ("r", 0)]),
+        # C14-a: the newer version has k copies of ONE share number (unrecoverable), the older one is recoverable
+        ([v3, v5], [("a", 0, 0, 0), ("a", 1, 1, 0), ("a", 2, 0, 1), ("a", 3, 0, 1), ("a", 4, 0, 1)]),
+        # C11-b / C14-c: a newer version on one share, an older one recoverable; also the writer's and the reader's
+        # description of one version (offset names in another order)
+        ([v3, v5, v5[:8] + (tuple(reversed(v5[8])),)], [("a", 0, 0, 0), ("a", 1, 1, 0), ("a", 2, 2, 1), ("a", 3, 1, 2)]),
     ]
 
+
+
+def _upd_corpus():
+    """C11-a: MODE_READ, 2k answers in, an older version recoverable, one share of a newer version seen, servers left"""
+    vs = lambda seq, rh, k, n: (seq, rh, b"\x01" * 16, 6, 6, k, n, b"p%d" % seq + rh[:2], tuple((key, 100) for key in mc.OFFSET_KEYS))
+    v3, v5 = vs(3, HASHES[0], 2, 4), vs(5, HASHES[1], 2, 4)
+    base = {"mode": "MODE_READ", "running": True, "eps": 2, "priv": False, "full": [0, 1, 2, 3, 4, 5, 6, 7],
+            "must": [], "out": [], "extra": [4, 5, 6, 7], "bad": [], "empty": [3], "with": [0, 1, 2], "completed": 4,
+            "numq": 4, "vers": [v3, v5], "ops": [("a", 0, 0, 0), ("a", 1, 1, 0), ("a", 2, 2, 1)]}
+    waiting = dict(base, extra=[], out=[4], completed=4)
+    return [base, waiting, dict(base, mode="MODE_ANYTHING"), dict(base, ops=[("a", 0, 0, 0), ("a", 1, 1, 0)])]
+
+
+# grid histories of the fixed corpus: one per known mechanism (all shares on distinct servers: 4 servers, N = 4)
+HISTORY_CORPUS = [
+    # C11-c: the newest version survives on server 0 only; server 0 answers the first survey pass of the edit and is
+    # gone for the second pass and the publish -- the three multi-pass operations
+    {"servers": 4, "k": 2, "n": 4, "fmt": "s", "sched": 21, "policy": "fifo",
+     "steps": [("create", "0011"), ("pub", "2233", []), ("pub", "4455", []), ("stale", 1, [1, 2, 3]),
+               ("modify-split", "aa", {"0": ["ok-then-fail", 1]}), ("read", [])]},
+    {"servers": 4, "k": 2, "n": 4, "fmt": "s", "sched": 22, "policy": "fifo",
+     "steps": [("create", "0011"), ("pub", "2233", []), ("pub", "4455", []), ("stale", 1, [1, 2, 3]),
+               ("modify", "bb", {"0": ["ok-then-fail", 1]}), ("read", [])]},
+    {"servers": 4, "k": 2, "n": 4, "fmt": "m", "sched": 23, "policy": "fifo",
+     "steps": [("create", "00112233445566778899"), ("pub", "2233445566778899aabb", []), ("pub", "445566778899aabbccdd", []),
+               ("stale", 1, [1, 2, 3]), ("update-split", "cc", {"0": ["ok-then-fail", 1]}), ("read", [])]},
+    # C11-b on the grid: a publish that fails part-way leaves a newer seqnum on one server; then an in-place update
+    {"servers": 4, "k": 2, "n": 4, "fmt": "m", "sched": 24, "policy": "fifo",
+     "steps": [("create", "00112233445566778899"), ("wfail", [1, 2, 3]), ("pub", "2233445566778899aabb", []),
+               ("update", "dd", 3, []), ("read", [])]},
+    # 80fa722: a version object is reused (publish, then an edit that re-surveys with one server gone): the
+    # publisher's and the surveyor's description of the new version must be one verinfo
+    {"servers": 3, "k": 1, "n": 3, "fmt": "m", "sched": 25, "policy": "fifo",
+     "steps": [("create", "0011"), ("overwrite-then-modify", "2233", "ee", [2]), ("read", [])]},
+    {"servers": 3, "k": 1, "n": 3, "fmt": "s", "sched": 26, "policy": "fifo",
+     "steps": [("create", "0011"), ("overwrite-then-modify", "2233", "ee", [2]), ("read", [])]},
+    # C11-a on the grid: the first 2k servers of the permuted list hold an older recoverable version and one share of
+    # the newest (covered deterministically by _upd_corpus; this history exercises the same rule end to end)
+    {"servers": 8, "k": 2, "n": 4, "fmt": "s", "sched": 27, "policy": "fifo",
+     "steps": [("create", "0011"), ("pub", "2233", []), ("stale", 0, [0, 1, 2, 3, 4, 5]), ("read", []), ("read", [6, 7])]},
+]
 
 
 def replay_case(replay):
@@ -884,15 +956,19 @@ def run(ctx):
             run_history(ctx, h, acc)
             finish_grid(ctx, acc)
         return
+    import os
+    corpus_only = bool(os.environ.get("VERIF_CORPUS_ONLY"))
     cases = _corpus()
-    for _ in range(ctx.budget(400, 8000)):
+    for _ in range(0 if corpus_only else ctx.budget(400, 8000)):
         vers = gen_versions(ctx.rng)
         cases.append((vers, gen_map_ops(ctx.rng, vers)))
     run_smaps(ctx, cases)
-    run_upds(ctx, [gen_upd(ctx.rng) for _ in range(ctx.budget(600, 12000))])
+    run_upds(ctx, _upd_corpus() + [gen_upd(ctx.rng) for _ in range(0 if corpus_only else ctx.budget(600, 12000))])
     acc = {k: [] for k in ("upd_lines", "upd_impl", "upd_cases", "sm_lines", "sm_impl", "sm_cases", "log_lines",
                                     "log_impl", "log_cases")}
-    for _ in range(ctx.budget(80, 900)):
+    for h in HISTORY_CORPUS:
+        run_history(ctx, dict(h, steps=[tuple(st) for st in h["steps"]]), acc)
+    for _ in range(0 if corpus_only else ctx.budget(80, 900)):
         run_history(ctx, gen_history(ctx.rng), acc)
     finish_grid(ctx, acc)
 
